@@ -533,6 +533,33 @@ def rule_r9(ctx) -> List[R.Inst]:
     return insts
 
 
+def rule_r10(ctx) -> List[R.Inst]:
+    """hold ends: head_offset = offset, tail_offset = offset + length, on lists and on items"""
+    from .. import sym
+    M = ctx.M
+    insts = []
+    for q, want in ((HL + ".head_offset", "offset"), (HL + ".tail_offset", "offset + length"),
+                    ("reamber.base.Hold.Hold.tail_offset", "offset + length")):
+        fn = M.fn(q)
+        file, line = fn_loc(M, q)
+        rets = [n for n in walk_no_nested(fn.node) if isinstance(n, ast.Return) and n.value is not None]
+        key = ".".join(q.rsplit(".", 2)[-2:])
+        if len(rets) != 1:
+            insts.append(R.undec("C16.R10", key, file, line, "single return expected"))
+            continue
+        lf = lambda n: (n.attr if isinstance(n, ast.Attribute) and isinstance(n.value, ast.Name) and n.value.id == "self" else None)  # noqa: E731
+        r = sym.canon(rets[0].value, lf)
+        if r.same(sym.parse(want)):
+            insts.append(R.ok("C16.R10", key, file, rets[0].lineno, idiom=f"{key.split('.')[-1]} = {want}"))
+        elif r.symbols() <= {"offset", "length"}:
+            insts.append(R.viol("C16.R10", key, file, rets[0].lineno,
+                                f"{key} must be {want}; every writer, filter and pattern that asks for the end of a hold uses it",
+                                construct=unparse(rets[0].value)))
+        else:
+            insts.append(R.undec("C16.R10", key, file, rets[0].lineno, "not in modelled arithmetic"))
+    return insts
+
+
 SPECS = [
     RuleSpec("C16.R1", rule_r1, 2, "A7", "int index is positional; other indices re-wrap df[...] in the receiver's class"),
     RuleSpec("C16.R2", rule_r2, 2, "A7", "__len__ = rows; __iter__ yields one item per row in row order"),
@@ -543,6 +570,7 @@ SPECS = [
     RuleSpec("C16.R7", rule_r7, 28, "A2", "item constructor kwargs = declared fields"),
     RuleSpec("C16.R8", rule_r8, 37, "A2", "default / empty / from_dict frames = declared fields"),
     RuleSpec("C16.R9", rule_r9, 2, "M0", "row -> item filter keeps exactly the declared fields"),
+    RuleSpec("C16.R10", rule_r10, 3, "A7", "hold ends: head_offset = offset, tail_offset = offset + length"),
 ]
 
 META = dict(
